@@ -50,7 +50,7 @@ pub fn run(out: &mut Out, seed: u64, thorough: bool) {
     // 3. random sequences incl. input setters, compared with the model's full dump as well
     let n = if thorough { 400_000 } else { 40_000 };
     for i in 0..n {
-        let line = match rng.below(11) {
+        let line = match rng.below(14) {
             0 | 1 | 2 => format!("spec.busw {} {}", rng.byte(), rng.byte()),
             3 => format!("spec.busw {} {}", 0xF0 + rng.below(16), rng.byte()),
             4 | 5 => format!("spec.busr {}", rng.byte()),
@@ -58,6 +58,18 @@ pub fn run(out: &mut Out, seed: u64, thorough: bool) {
             7 => format!("spec.in {} {}", rng.below(4), rng.byte()),
             8 => format!("spec.di1 {}", rng.byte()),
             10 => if rng.below(3) == 0 { "spec.irq".to_string() } else { format!("spec.busw 249 {}", rng.byte()) },
+            // the board behind 0xF0-0xF3: external events, interrupt-control / direction bytes, reads compared with
+            // the model and with what the board reports
+            11 => match rng.below(6) {
+                0 => format!("j1 {}", rng.below(2)),
+                1 => format!("j2 {}", rng.below(2)),
+                2 => format!("uio{} {}", 1 + rng.below(3), rng.below(2)),
+                3 => format!("ai{} {}", 1 + rng.below(2), crate::gen::f32_bits(&mut rng)),
+                4 => format!("temp {}", crate::gen::f32_bits(&mut rng)),
+                _ => format!("spec.busw 242 {}", 0xC0 | rng.byte()),
+            },
+            12 => format!("busr {}", 0xF0 + rng.below(16)),
+            13 => "spec.busstat".to_string(),
             _ => "spec.busd".to_string(),
         };
         run_line(out, &mut s, &line);
